@@ -530,15 +530,16 @@ type gVar struct {
 }
 
 type docGen struct {
-	r          *rand.Rand
-	s          *gSchema
-	p          *profile
-	nextID     int
-	vars       []gVar // of the operation being generated
-	frags      []sx.S
-	nfrag      int
-	feats      map[string]bool
-	defectInfo sx.S // the defect that has been injected (C10)
+	r             *rand.Rand
+	s             *gSchema
+	p             *profile
+	nextID        int
+	vars          []gVar // of the operation being generated
+	frags         []sx.S
+	nfrag         int
+	feats         map[string]bool
+	defectInfo    sx.S // the defect that has been injected (C10)
+	metaContainer int  // the container type a meta-field was placed in
 }
 
 func (d *docGen) id() sx.S {
@@ -823,6 +824,14 @@ func (d *docGen) sels(container int, depth int) []sx.S {
 							break
 						}
 					}
+				case "meta-field":
+					// __schema / __type selected in a container that is not the query root
+					if container != 1 {
+						fname = 98 + r.Intn(2)
+						args = sx.L("args")
+						d.defectInfo = sx.L("defect", "unknown-field", fid, sx.A(fname))
+						d.metaContainer = container
+					}
 				case "unknown-directive":
 					fdirs = append(fdirs, sx.L("d", "7", "-"))
 					d.defectInfo = sx.L("defect", "unknown-directive", fid, "7")
@@ -854,7 +863,9 @@ func (d *docGen) sels(container int, depth int) []sx.S {
 			}
 			fs := sx.L("f", fid, alias, sx.A(fname), args, fdirs)
 			bt := d.s.byID[f.ty.base()]
-			if bt.kind == "obj" || bt.kind == "iface" || bt.kind == "union" {
+			if fname >= 98 {
+				// no selection set: the request is refused where the field stands
+			} else if bt.kind == "obj" || bt.kind == "iface" || bt.kind == "union" {
 				if depth >= d.p.maxDepth {
 					fs = append(fs, sx.L("f", d.id(), "-", "0", sx.L("args"), sx.L("dirs")))
 				} else {
@@ -1071,6 +1082,11 @@ func genExecCase(r *rand.Rand, p *profile, id string) Case {
 		// a small ggql.MaxResolveDepth: the budget binds inside the document
 		input = append(input, sx.L("maxdepth", sx.A(2+r.Intn(7))))
 		d.feats["small-depth-budget"] = true
+	}
+	if mc := s.byID[d.metaContainer]; mc != nil && mc.kind == "obj" && d.metaContainer > 2 && chance(r, 0.7) {
+		// that container carries the name Query; the query root is named by a schema block
+		input = append(input, sx.L("queryname", sx.A(d.metaContainer)))
+		d.feats["object-named-Query-below-the-root"] = true
 	}
 	if d.defectInfo != nil {
 		input = append(input, d.defectInfo)
@@ -1371,7 +1387,7 @@ var profC10 = profile{noWrongType: true, unboundValues: true, pFail: 0.03, pIll:
 // c10Gen: valid documents with exactly one injected defect of the property's catalogue.
 func c10Gen(r *rand.Rand, tier string) []Case {
 	kinds := []string{"unknown-field", "undeclared-arg", "missing-required", "unknown-directive", "misplaced-directive",
-		"undefined-inline-cond", "undefined-fragment-cond", "directive-on-fragment-definition"}
+		"undefined-inline-cond", "undefined-fragment-cond", "directive-on-fragment-definition", "meta-field"}
 	n := 3500
 	if tier == "thorough" {
 		n = 50000
